@@ -208,8 +208,38 @@ def lagrange_box(p_nodes4, p_bound4, y_nodes4, p_new):
 # ----------------------------------------------------------------------------- symmetry fill (standard setting)
 
 def system_tensor(system, c):
+    """full invariant tensor {pair: value} of `system` determined by the supplied components c (dict pair -> value or
+    array), from the exact invariant subspace of the Laue class (mc.ref.laue_ref: group average of the rotation action
+    on the 21 components; standard setting: z principal axis, x two-fold axis, monoclinic unique axis y) -- not from any
+    packaged relations file.  The supplied components must determine the tensor (rank = dimension of the subspace);
+    supplied components that are themselves symmetry-related are reconciled in the least-squares sense."""
+    if system in (None,):
+        return dict(c)
+    from mc.ref import laue_ref
+    rows, _ = laue_ref.invariant_basis(system)
+    B = numpy.array([[float(x) for x in r] for r in rows])            # d x 21
+    given = [p for p in PAIRS21 if p in c]
+    cols = [PAIRS21.index(p) for p in given]
+    A = B[:, cols].T                                                   # len(given) x d
+    if numpy.linalg.matrix_rank(A) < B.shape[0]:
+        raise ValueError(f"the supplied components {given} do not determine a {system} tensor")
+    Y = numpy.array([numpy.broadcast_to(numpy.asarray(c[p], float), numpy.shape(numpy.asarray(c[given[0]], float))) for p in given])
+    shape = Y.shape[1:]
+    X, *_ = numpy.linalg.lstsq(A, Y.reshape(len(given), -1), rcond=None)
+    full = (B.T @ X).reshape((21,) + shape)
+    out = {}
+    for k, p in enumerate(PAIRS21):
+        v = full[k]
+        if not numpy.any(B[:, k] != 0):
+            v = numpy.zeros(shape)                                     # vanishes identically in this class
+        out[p] = v if shape else float(v)
+    return out
+
+
+def _system_tensor_explicit(system, c):
     """full invariant tensor {pair: value} of `system` from its independent entries (dict pair -> value/array).
-    Standard setting: z principal axis, x two-fold axis.  Systems: None, orthorhombic, cubic, trigonal7, hexagonal."""
+    Standard setting: z principal axis, x two-fold axis.  Systems: None, orthorhombic, cubic, trigonal7, hexagonal.
+    Hand-written textbook forms, used by the selftest as a cross-check of system_tensor."""
     if system in (None, "triclinic"):
         return dict(c)
     z = 0.0 * numpy.asarray(c[(1, 1)], float)
@@ -411,4 +441,37 @@ def selftest():
         i, j = [a for a in range(3) if a != axis]
         R[i, i] = R[j, j] = math.cos(ang); R[i, j] = -math.sin(ang); R[j, i] = math.sin(ang)
         ok &= bool(numpy.allclose(tensor_ref.rotate(C, R), C, atol=1e-10))
+    # the Laue-class fill against the hand-written forms, and its invariance under the generators for every class
+    indep = {"monoclinic": [(1, 1), (2, 2), (3, 3), (1, 2), (1, 3), (2, 3), (4, 4), (5, 5), (6, 6), (1, 5), (2, 5), (3, 5), (4, 6)],
+             "orthorhombic": [(1, 1), (2, 2), (3, 3), (1, 2), (1, 3), (2, 3), (4, 4), (5, 5), (6, 6)],
+             "tetragonal7": [(1, 1), (3, 3), (1, 2), (1, 3), (4, 4), (6, 6), (1, 6)], "tetragonal6": [(1, 1), (3, 3), (1, 2), (1, 3), (4, 4), (6, 6)],
+             "trigonal7": [(1, 1), (3, 3), (1, 2), (1, 3), (4, 4), (1, 4), (1, 5)], "trigonal6": [(1, 1), (3, 3), (1, 2), (1, 3), (4, 4), (1, 4)],
+             "hexagonal": [(1, 1), (3, 3), (1, 2), (1, 3), (4, 4)], "cubic": [(1, 1), (1, 2), (4, 4)]}
+    sub = lambda system: {p: base[p] for p in indep[system]}
+    for system in ("orthorhombic", "cubic", "hexagonal", "trigonal7"):
+        t1, t2 = system_tensor(system, sub(system)), _system_tensor_explicit(system, base)
+        ok &= all(abs(t1[p] - t2[p]) < 1e-9 for p in PAIRS21)
+
+    def rot(axis, ang):
+        R = numpy.eye(3)
+        i, j = [a for a in range(3) if a != axis]
+        R[i, i] = R[j, j] = math.cos(ang); R[i, j] = -math.sin(ang); R[j, i] = math.sin(ang)
+        return R
+    gens = {"monoclinic": [rot(1, math.pi)], "orthorhombic": [rot(2, math.pi), rot(0, math.pi)], "tetragonal7": [rot(2, math.pi / 2)],
+            "tetragonal6": [rot(2, math.pi / 2), rot(0, math.pi)], "trigonal7": [rot(2, 2 * math.pi / 3)],
+            "trigonal6": [rot(2, 2 * math.pi / 3), rot(0, math.pi)], "hexagonal": [rot(2, math.pi / 3), rot(0, math.pi)],
+            "cubic": [rot(2, math.pi / 2), rot(0, math.pi / 2)]}
+    nonzero = {"monoclinic": 13, "orthorhombic": 9, "tetragonal7": 11, "tetragonal6": 9, "trigonal7": 15, "trigonal6": 12, "hexagonal": 9, "cubic": 9}
+    for system, rs in gens.items():
+        t = system_tensor(system, sub(system))
+        C = tensor_ref.full_from_voigt(tensor_ref.c6_from_dict(t))
+        ok &= all(bool(numpy.allclose(tensor_ref.rotate(C, R), C, atol=1e-9)) for R in rs)
+        ok &= sum(1 for p in PAIRS21 if t[p] != 0) == nonzero[system]
+        ok &= all(abs(t[p] - base[p]) < 1e-9 for p in indep[system])
+    t7 = system_tensor("tetragonal7", sub("tetragonal7"))
+    ok &= abs(t7[(2, 6)] + t7[(1, 6)]) < 1e-12 and abs(t7[(1, 6)] - base[(1, 6)]) < 1e-9 and t7[(1, 6)] != 0
+    # array-valued input, subset input
+    arr = {p: numpy.array([1.0, 2.0]) * v for p, v in base.items() if p in [(1, 1), (3, 3), (1, 2), (1, 3), (4, 4), (6, 6), (1, 6)]}
+    ta = system_tensor("tetragonal7", arr)
+    ok &= bool(numpy.allclose(ta[(2, 6)], -arr[(1, 6)])) and bool(numpy.allclose(ta[(2, 2)], arr[(1, 1)])) and bool(numpy.allclose(ta[(1, 4)], 0))
     return bool(ok) and tensor_ref.selftest()
